@@ -770,18 +770,19 @@ def returns_by_none(w: 'GuardWalk', term: str) -> Optional[Dict[bool, str]]:
     return out
 
 
-def truth_under(f, atom_truth) -> Optional[bool]:
-    """three-valued truth of a guard when `atom_truth(expr) -> True/False/None` decides atoms"""
+def truth_under(f, atom_truth, other=None) -> Optional[bool]:
+    """three-valued truth of a guard when `atom_truth(expr) -> True/False/None` decides atoms
+    (`other(formula)` decides the non-propositional leaves, e.g. `raises`)"""
     k = f[0]
     if k in ('true', 'iter'):
         return True
     if k == 'false':
         return False
     if k == 'not':
-        t = truth_under(f[1], atom_truth)
+        t = truth_under(f[1], atom_truth, other)
         return None if t is None else not t
     if k in ('and', 'or'):
-        vals = [truth_under(x, atom_truth) for x in f[1:]]
+        vals = [truth_under(x, atom_truth, other) for x in f[1:]]
         if k == 'and':
             if any(v is False for v in vals):
                 return False
@@ -795,10 +796,13 @@ def truth_under(f, atom_truth) -> Optional[bool]:
             e, neg = e.operand, not neg
         t = atom_truth(e)
         return None if t is None else (t != neg)
+    if other is not None:
+        return other(f)
     return None
 
 
-def expand_under(w: 'GuardWalk', e: ast.AST, atom_truth, depth: int = 8) -> ast.AST:
+def expand_under(w: 'GuardWalk', e: ast.AST, atom_truth, depth: int = 8,
+                 other=None) -> ast.AST:
     """expansion of locals for the executions selected by a valuation of the atoms: a local
     assigned on several paths denotes the last assignment whose path condition holds"""
     import copy as _copy
@@ -841,8 +845,8 @@ def expand_under(w: 'GuardWalk', e: ast.AST, atom_truth, depth: int = 8) -> ast.
                         return base.elts[i]
                     return ast.Subscript(base, ast.Constant(i), ast.Load())
                 return n
-            live = [d for d in ds if truth_under(strip_iter(d[3]), atom_truth) is True]
-            maybe = [d for d in ds if truth_under(strip_iter(d[3]), atom_truth) is None]
+            live = [d for d in ds if truth_under(strip_iter(d[3]), atom_truth, other) is True]
+            maybe = [d for d in ds if truth_under(strip_iter(d[3]), atom_truth, other) is None]
             if maybe or not live:
                 return n
             return Sub(self.d - 1, self.bound).visit(_copy.deepcopy(live[-1][1]))
